@@ -27,22 +27,22 @@ var targetPatterns = []string{
 }
 
 type Ctx struct {
-	repo      string
-	verif     string
-	pkgs      []*packages.Package
-	allPkgs   map[string]*packages.Package // by path, including dependencies
-	prog      *ssa.Program
-	ssaPkgs   map[string]*ssa.Package
-	allFuncs  map[*ssa.Function]bool
-	funcByKey map[string]*ssa.Function
-	contracts *ContractSet
-	sorts     *Sorts
-	ufDecls   map[string]string
-	ufOrder   []string
-	globals   map[string]int
-	globOrder []string
-	opaque    map[string]int
-	mods      *modAnalysis
+	repo           string
+	verif          string
+	pkgs           []*packages.Package
+	allPkgs        map[string]*packages.Package // by path, including dependencies
+	prog           *ssa.Program
+	ssaPkgs        map[string]*ssa.Package
+	allFuncs       map[*ssa.Function]bool
+	funcByKey      map[string]*ssa.Function
+	contracts      *ContractSet
+	sorts          *Sorts
+	ufDecls        map[string]string
+	ufOrder        []string
+	globals        map[string]int
+	globOrder      []string
+	opaque         map[string]int
+	mods           *modAnalysis
 	mutableGlobals map[string]bool
 	writtenTables  map[string]bool
 	initNonNil     map[string]bool
@@ -50,7 +50,7 @@ type Ctx struct {
 	fileLines      map[string][]string
 	overlay        map[string][]byte
 	ghostDefaults  []string
-	loadErrs  []string
+	loadErrs       []string
 }
 
 func LoadCtx(repo, verif string, overlay map[string][]byte) (*Ctx, error) {
@@ -294,6 +294,24 @@ func (c *Ctx) heapNameOfModifies(m string) string {
 }
 
 // sourceLine returns the text of the source line of a position (for `ensures at "..."`).
+// firstLineContaining: the number of the first source line of fn's body that contains text (0: none)
+func (c *Ctx) firstLineContaining(fn *ssa.Function, text string) int {
+	syn := fn.Syntax()
+	if syn == nil || fn.Prog == nil {
+		return 0
+	}
+	from := fn.Prog.Fset.Position(syn.Pos())
+	to := fn.Prog.Fset.Position(syn.End())
+	c.sourceLine(fn, syn.Pos()) // loads the file
+	lines := c.fileLines[from.Filename]
+	for l := from.Line; l <= to.Line && l-1 < len(lines); l++ {
+		if strings.Contains(lines[l-1], text) {
+			return l
+		}
+	}
+	return 0
+}
+
 func (c *Ctx) sourceLine(fn *ssa.Function, pos token.Pos) string {
 	if !pos.IsValid() || fn.Prog == nil {
 		return ""
